@@ -210,7 +210,7 @@ func (w *renderer) bare(e *Ex, ai bool) {
 	}
 }
 
-var triviaSafe = []string{" ", "  ", "\t", "\n", "\r\n", " /* c */ ", "/**/", " // c\n", "\u00a0", "\ufeff", "\u2028", "\n\n  ", "/* a\n b */"}
+var triviaSafe = []string{" ", "  ", "\t", "\n", "\r\n", "\r", "\r \n", "\r/**/\n", " /* c */ ", "/**/", " // c\n", "\u00a0", "\ufeff", "\u2028", "\n\n  ", "/* a\n b */"}
 var triviaNoNL = []string{" ", "  ", "\t", " /* c */ ", "/**/", "\u00a0", ""}
 
 // text joins the pieces: mode "min"/"extra": single spaces; "trivia": random white space, comments, line breaks.
